@@ -53,6 +53,14 @@ pub fn parse_record<const H: usize>(
     let length_with_flag = u32::from_le_bytes(length_bytes);
     let is_compressed = length_with_flag & COMPRESSION_FLAG != 0;
     let payload_len = (length_with_flag & LENGTH_MASK) as usize; // H + data_len
+
+    if payload_len < H {
+        // Every record holds at least its fixed-size header: a shorter length is a corrupt
+        // length field (slicing the header out of it below would panic).
+        return Err(ReadError::Crc32cMismatch {
+            offset: offset as u64,
+        });
+    }
     let crc = u32::from_le_bytes(
         record_header_buf[LEN_SIZE..LEN_SIZE + CRC32C_SIZE]
             .try_into()
